@@ -24,7 +24,10 @@ JS = ["json:bool", "json:stru", "json:map", "json:slice", "json:mapany", "json:u
       "json:nested", "json:chan"]
 OTHER_SRC = ["nil", "int", "float", "bool", "time", "ibytes"]
 MALFORMED_JSON = [b"", b"{", b"nul", b"[1,2", b'{"A":"x","B":"kept"}', b"\xff", b"123", b'"s"', b"{}", b"null", b"[]", b"true",
-                  b'{"A":1}{', b" ", b'{"a":1e999}', b"[\"x\"]", b'{"X":"NaN"}']
+                  b'{"A":1}{', b" ", b'{"a":1e999}', b"[\"x\"]", b'{"X":"NaN"}',
+                  # JSON strings whose CONTENT is JSON text (double-encoded documents): a string is wrongly typed input for
+                  # every non-string T, whatever it contains
+                  b'"123"', b'"true"', b'"false"', b'"null"', b'"{}"', b'"[]"', b'"[1,2,3]"', b'"1.5"', b'"\\"s\\""', b'""', b'" "']
 
 
 def rng_of(k):
@@ -268,6 +271,32 @@ def gen_phase2(c, cat, cases1, impl1):
         for j, mj in enumerate(MALFORMED_JSON):
             pr = idxs[j % len(idxs)]
             out.append(Case("JX %s=%s %d %s:%s" % (ty, pr, j % 2, "bytes" if j % 2 else "string", mj.hex()), "JX", "C18:json:badinput", ty=ty))
+    # wrongly typed JSON derived from the REAL marshalled texts: each text double-encoded as a JSON string, and the text
+    # of a value of every other catalogue type (encoding/json called directly decides what is an error: the oracle field)
+    import json as _json
+    n_dbl = n_cross = 0
+    for (ty, idx), js in sorted(jencs.items()):
+        try:
+            dbl = _json.dumps(js.decode("utf-8"), ensure_ascii=False).encode("utf-8")
+        except UnicodeDecodeError:
+            continue
+        k = good[len(out) % 3]
+        pr = "#z"
+        for j, sk in enumerate(("bytes", "string")):
+            out.append(Case("JX %s=%s %d %s:%s" % (ty, pr, j, sk, dbl.hex()), "JX", "C18:json:badinput", ty=ty))
+        out.append(Case("S %s=%s 1 %s bytes %s %s" % (ty, pr, hx(k), hx(dbl), hx(k)), "S", "C18:json:scan", ty=ty, pt=dbl, key=k, sealkey=k))
+        n_dbl += 3
+    by_ty = {}
+    for (ty, idx), js in sorted(jencs.items()):
+        by_ty.setdefault(ty, []).append(js)
+    for ty in JS:
+        for oty, jss in sorted(by_ty.items()):
+            if oty == ty:
+                continue
+            for js in jss[:2 if full else 1]:
+                out.append(Case("JX %s=#z %d bytes:%s" % (ty, n_cross % 2, js.hex()), "JX", "C18:json:crosstype", ty=ty))
+                n_cross += 1
+    c.cov["wrongly_typed_json"] = {"double_encoded": n_dbl, "cross_type": n_cross}
     c.cov["corruption_stream"] = {"base_ciphertexts": len(chosen), "truncations": n_trunc, "bit_flips": n_flip}
     return out
 
@@ -309,7 +338,7 @@ def normalise(cs, o):
         if m:
             st = m.group(1)
             return "ok nonce=%s pt=%s len=%d" % (st[:24], m.group(2), len(st) // 2)
-    return re.sub(r" j(enc|dec)=\S*", "", o)
+    return re.sub(r" (j(enc|dec)=|RESCAN|SRCMUT|ALIAS)\S*", "", o)
 
 
 def oracle(cs, o, cat):
@@ -318,6 +347,16 @@ def oracle(cs, o, cat):
     if o.startswith("panic"):
         return "panic"
     ty = cs.meta.get("ty")
+    notes = [w for w in o.split() if w in ("SRCMUT", "ALIAS", "RESCAN-PANIC") or w.startswith("RESCAN-DIFF:")]
+    if notes:
+        first = o.split(" jdec")[0]
+        if any(w.startswith("RESCAN") for w in notes):
+            second = [w for w in notes if w.startswith("RESCAN")][0].replace(",", " ")
+            return "Scan of the same []byte source twice (equal columns) gives %r the first time and %s the second time%s" % (
+                first, second, " — Scan modified the source it was given" if "SRCMUT" in notes else "")
+        if "SRCMUT" in notes:
+            return "Scan modified the []byte source it was given (driver-owned memory); result %r" % first
+        return "the restored value %r changes when the source buffer is overwritten after Scan returned (Val aliases the source)" % first
     if cs.kind == "V" and cs.meta.get("base") and ty in NUM + ["str", "bytes"]:
         want = enc_py(ty, int(cs.meta["val"])) if ty in NUM else bytes.fromhex(cs.meta["val"])
         m = re.match(r"ok stored=([0-9a-f]*) pt=(\S+) ", o)
@@ -493,6 +532,8 @@ def main(tier):
         if why:
             decided.add(i)
             sig = cs.sig
+            if "[]byte source" in why or "aliases the source" in why:
+                sig = "C18:scan:source"
             if why == "panic":
                 sig = cs.sig if cs.sig.startswith("C18:scan:corrupt") else "C18:panic:" + cs.kind
             c.report(sig, "sqlx column: %s" % why,
